@@ -234,3 +234,170 @@ Proof.
       rewrite (extends_space d1 _ c1 He2 H2), H3. apply (Hpar p eq_refl).
     + right. rewrite Hsp1 in Hin. exact Hin.
 Qed.
+
+(* ====================================================================== *)
+(* B. a percolated trap space with a free variable has a source SCC        *)
+(* ====================================================================== *)
+
+Definition bw1 (N : net) (Sp : space) (v : nat) : list nat := bwd_closure (nvars N) N Sp [v].
+
+Lemma bw1_In : forall N Sp v u, sgood N Sp v -> (In u (bw1 N Sp v) <-> sreach N Sp u v).
+Proof.
+  intros N Sp v u Hv. unfold bw1. split.
+  - intro H. destruct (bwd_sound N Sp (nvars N) [v] (sgood_single N Sp v Hv) u H) as (x & [Hx|[]] & Hr).
+    subst x. exact Hr.
+  - intro H. apply (bwd_complete N Sp [v] v u (sgood_single N Sp v Hv)); [|exact H].
+    apply bwd_start; [apply sgood_single; exact Hv|left; reflexivity].
+Qed.
+
+Lemma bw1_NoDup : forall N Sp v, NoDup (bw1 N Sp v).
+Proof. intros. unfold bw1. apply bwd_NoDup. constructor; [intros []|constructor]. Qed.
+
+(* a vertex all of whose ancestors are descendants *)
+Lemma source_vertex_aux : forall N Sp k v, sgood N Sp v -> length (bw1 N Sp v) <= k ->
+  exists w, sgood N Sp w /\ forall u, sreach N Sp u w -> sreach N Sp w u.
+Proof.
+  intros N Sp k. induction k as [|k IH]; intros v Hv Hlen.
+  - exfalso. assert (Hin : In v (bw1 N Sp v)) by (apply bw1_In; [exact Hv|apply rt_refl]).
+    destruct (bw1 N Sp v); [destruct Hin|simpl in Hlen; lia].
+  - destruct (filter (fun u => negb (mem_nat v (bw1 N Sp u))) (bw1 N Sp v)) as [|u l] eqn:Ef.
+    + exists v. split; [exact Hv|]. intros u Hu.
+      pose proof (sreach_good_l N Sp u v Hu Hv) as Hgu.
+      apply (bw1_In N Sp u v Hgu).
+      destruct (mem_nat v (bw1 N Sp u)) eqn:E; [apply BM_mem_nat_In; exact E|]. exfalso.
+      assert (Hin : In u (filter (fun u => negb (mem_nat v (bw1 N Sp u))) (bw1 N Sp v))).
+      { apply filter_In. split; [apply bw1_In; assumption|]. rewrite E. reflexivity. }
+      rewrite Ef in Hin. destruct Hin.
+    + assert (Hin : In u (filter (fun u => negb (mem_nat v (bw1 N Sp u))) (bw1 N Sp v)))
+        by (rewrite Ef; left; reflexivity).
+      apply filter_In in Hin. destruct Hin as [Hu Hn].
+      apply negb_true_iff in Hn. apply BM_mem_nat_false in Hn.
+      apply (bw1_In N Sp v u Hv) in Hu.
+      pose proof (sreach_good_l N Sp u v Hu Hv) as Hgu.
+      apply (IH u Hgu).
+      assert (Hnd : NoDup (v :: bw1 N Sp u)) by (constructor; [exact Hn|apply bw1_NoDup]).
+      assert (Hincl : incl (v :: bw1 N Sp u) (bw1 N Sp v)).
+      { intros x [Hx|Hx].
+        - subst x. apply bw1_In; [exact Hv|apply rt_refl].
+        - apply bw1_In; [exact Hv|]. apply (bw1_In N Sp u x Hgu) in Hx.
+          apply (rt_trans _ _ _ u); assumption. }
+      pose proof (NoDup_incl_length Hnd Hincl) as Hl. simpl in Hl. lia.
+Qed.
+
+Lemma source_vertex : forall N Sp v, sgood N Sp v ->
+  exists w, sgood N Sp w /\ forall u, sreach N Sp u w -> sreach N Sp w u.
+Proof. intros N Sp v Hv. apply (source_vertex_aux N Sp (length (bw1 N Sp v)) v Hv). apply Nat.le_refl. Qed.
+
+(* without a free regulator the update function is constant *)
+Lemma no_regulator_const : forall N Sp v s0, length Sp = nvars N -> sgood N Sp v ->
+  (forall u, u < nvars N -> free_in Sp u = true -> regulates_b N Sp u v = false) ->
+  wf_state N s0 -> in_space s0 Sp = true -> const_on N v Sp (upd N v s0).
+Proof.
+  intros N Sp v s0 HS [Hv Hf] Hno Hwf0 Hs0.
+  assert (Hc : closed_in N Sp [v]).
+  { split.
+    - intros x [Hx|[]]. subst x. split; assumption.
+    - intros i j [Hj|[]] Hi Hfi Hr. subst j. rewrite (Hno i Hi Hfi) in Hr. discriminate. }
+  assert (Hsame : forall s t, wf_state N s -> wf_state N t -> in_space s Sp = true -> in_space t Sp = true ->
+            nth v s false = nth v t false -> upd N v s = upd N v t).
+  { intros s t Hws Hwt Hs Ht Hag.
+    apply (closed_in_reads_B N Sp [v] v s t Hc (or_introl eq_refl) Hws Hwt Hs Ht).
+    intros x [Hx|[]]. subst x. exact Hag. }
+  intros s Hws Hs.
+  destruct (Bool.bool_dec (nth v s false) (nth v s0 false)) as [He|Hne]; [apply Hsame; assumption|].
+  rewrite (regulates_b_false N Sp v v (Hno v Hv Hf) s Hs).
+  apply Hsame; try assumption.
+  - unfold wf_state. rewrite flip_at_length. exact Hws.
+  - unfold flip_at. apply in_space_set_nth_free; [exact Hs|apply BM_free_in_spec; exact Hf].
+  - unfold flip_at. rewrite nth_set_nth_eq by (unfold wf_state in Hws; lia).
+    destruct (nth v s false), (nth v s0 false); try reflexivity; exfalso; apply Hne; reflexivity.
+Qed.
+
+Lemma free_has_regulator : forall N Sp v, length Sp = nvars N -> perc_closed N Sp -> sgood N Sp v ->
+  exists u, sgood N Sp u /\ regulates_b N Sp u v = true.
+Proof.
+  intros N Sp v HS Hpc Hv.
+  destruct (existsb (fun u => free_in Sp u && regulates_b N Sp u v) (seq 0 (nvars N))) eqn:E.
+  - apply existsb_exists in E. destruct E as (u & Hu & Hb). apply in_seq in Hu.
+    apply andb_true_iff in Hb. destruct Hb as [H1 H2]. exists u. split; [split; [lia|exact H1]|exact H2].
+  - exfalso. set (s0 := fill (nvars N) Sp []).
+    assert (Hs0 : in_space s0 Sp = true) by (apply fill_in_space; exact HS).
+    assert (Hwf0 : wf_state N s0) by (unfold wf_state, s0; apply fill_length).
+    destruct Hv as [Hv Hf].
+    apply (Hpc v (upd N v s0) Hv (proj1 (BM_free_in_spec Sp v) Hf)).
+    apply (no_regulator_const N Sp v s0 HS (conj Hv Hf)); [|exact Hwf0|exact Hs0].
+    intros u Hu Hfu. destruct (regulates_b N Sp u v) eqn:Er; [|reflexivity]. exfalso.
+    assert (Ht : existsb (fun u => free_in Sp u && regulates_b N Sp u v) (seq 0 (nvars N)) = true).
+    { apply existsb_exists. exists u. split; [apply in_seq; lia|]. rewrite Hfu, Er. reflexivity. }
+    rewrite Ht in E. discriminate.
+Qed.
+
+Lemma scc_step_nonempty : forall N Sp acc v, acc <> [] -> scc_step N Sp acc v <> [].
+Proof.
+  intros N Sp acc v Hne. unfold scc_step.
+  destruct (free_in Sp v && negb (existsb (mem_nat v) acc)); [|exact Hne].
+  destruct (scc_of N Sp v) as [|c0 cr]; [exact Hne|].
+  destruct (same_set _ _); [|exact Hne]. destruct acc; [contradiction|discriminate].
+Qed.
+
+Lemma scc_fold_nonempty : forall N Sp l acc, acc <> [] -> fold_left (scc_step N Sp) l acc <> [].
+Proof.
+  intros N Sp l. induction l as [|v l IH]; intros acc Hne; simpl; [exact Hne|].
+  apply IH. apply scc_step_nonempty. exact Hne.
+Qed.
+
+Lemma source_sccs_nonempty : forall N Sp v0, length Sp = nvars N -> perc_closed N Sp -> sgood N Sp v0 ->
+  source_sccs N Sp <> [].
+Proof.
+  intros N Sp v0 HS Hpc Hv0.
+  destruct (source_vertex N Sp v0 Hv0) as (w & Hw & Hsrc).
+  (* the component of w *)
+  assert (HC : forall u, In u (scc_raw N Sp w) <-> sreach N Sp u w).
+  { intro u. rewrite (scc_raw_In N Sp w u Hw). split; [intros [H _]; exact H|].
+    intro H. split; [exact H|apply Hsrc; exact H]. }
+  assert (Hww : In w (scc_raw N Sp w)) by (apply HC; apply rt_refl).
+  assert (Hof : scc_of N Sp w = scc_raw N Sp w).
+  { unfold scc_of. fold (scc_raw N Sp w).
+    destruct (scc_raw N Sp w) as [|a [|b r]] eqn:Er; try reflexivity.
+    destruct Hww as [Ha|[]]. subst a.
+    destruct (free_has_regulator N Sp w HS Hpc Hw) as (u & Hu & Hr).
+    assert (Hin : In u (scc_raw N Sp w)).
+    { apply HC. apply rt_step. split; [exact Hu|]. split; [exact Hw|exact Hr]. }
+    rewrite Er in Hin. destruct Hin as [Hin|[]]. subst u. rewrite Hr. reflexivity. }
+  assert (Hgood : forall x, In x (scc_raw N Sp w) -> sgood N Sp x).
+  { intros x Hx. apply HC in Hx. apply (sreach_good_l N Sp x w Hx Hw). }
+  assert (Hss : same_set (bwd_closure (nvars N) N Sp (scc_raw N Sp w)) (scc_raw N Sp w) = true).
+  { unfold same_set. apply andb_true_iff. split; apply forallb_forall; intros x Hx; apply BM_mem_nat_In.
+    - destruct (bwd_sound N Sp (nvars N) _ Hgood x Hx) as (u & Hu & Hr).
+      apply HC. apply HC in Hu. apply (rt_trans _ _ _ u); assumption.
+    - apply bwd_start; assumption. }
+  rewrite source_sccs_fold.
+  destruct Hw as [Hwl Hwf].
+  assert (Hin : In w (seq 0 (nvars N))) by (apply in_seq; lia).
+  apply in_split in Hin. destruct Hin as (l1 & l2 & El). rewrite El.
+  rewrite fold_left_app. simpl. apply scc_fold_nonempty.
+  set (acc := fold_left (scc_step N Sp) l1 []).
+  unfold scc_step. rewrite Hwf. simpl.
+  destruct (existsb (mem_nat w) acc) eqn:Ee; simpl.
+  - destruct acc; [discriminate|discriminate].
+  - rewrite Hof. destruct (scc_raw N Sp w) as [|c0 cr] eqn:Er; [destruct Hww|].
+    rewrite Hss. destruct acc; discriminate.
+Qed.
+
+Lemma no_source_scc_full : forall N Sp v, length Sp = nvars N -> perc_closed N Sp ->
+  source_sccs N Sp = [] -> v < nvars N -> nth v Sp None <> None.
+Proof.
+  intros N Sp v HS Hpc He Hv Hn.
+  apply (source_sccs_nonempty N Sp v HS Hpc); [|exact He].
+  split; [exact Hv|apply BM_free_in_spec; exact Hn].
+Qed.
+
+Lemma full_no_strict : forall (Y Sp : space), (forall v, v < length Sp -> nth v Sp None <> None) ->
+  strict_subspace Y Sp -> False.
+Proof.
+  intros Y Sp Hfull [Hsub Hne]. apply Hne.
+  pose proof (subspace_length Y Sp Hsub) as Hl.
+  apply (nth_ext Y Sp None None Hl). intros i Hi. rewrite Hl in Hi.
+  destruct (nth i Sp None) as [x|] eqn:Ex; [|exfalso; apply (Hfull i Hi); exact Ex].
+  apply (proj1 (subspace_nth Y Sp Hl) Hsub i x Ex).
+Qed.
